@@ -301,12 +301,128 @@ fn run_space(rep: &Report, name: &str, starts: Vec<(World, Vec<Act>)>, sqlite: b
     println!("[C04] {name}: {} start states, {} faulted syncs, {evals} fault runs, {nontrivial} with a version accepted by the server but the sync incomplete, {sk} skipped ({:.1}s)", starts.len(), jobs.len(), rep.elapsed());
 }
 
+// ---------------------------------------------------------------- working set after an interrupted sync
+
+fn ws_op(t: u8, p: &str, v: &str, old: Option<&str>) -> taskchampion::Operation {
+    taskchampion::Operation::Update {
+        uuid: crate::world::replicas::tid(t),
+        property: p.into(),
+        old_value: old.map(|s| s.to_string()),
+        value: Some(v.into()),
+        timestamp: ts(2),
+    }
+}
+
+fn commit_to(w: &mut World, r: usize, ops_: Vec<taskchampion::Operation>) {
+    crate::util::block_on(with_replica(&mut w.reps[r], Ctl::new(), async |rep| rep.commit_operations(ops_).await)).expect("commit");
+    w.obs[r] = Arc::new(obs_of(&mut w.reps[r]));
+}
+
+/// What must hold of a working set that was rebuilt without renumbering: slot 0 empty, exactly
+/// the pending tasks, each once.
+fn ws_complete(o: &crate::world::replicas::Obs) -> Result<(), String> {
+    let mut pend: Vec<uuid::Uuid> = o.tasks.iter().filter(|(_, m)| matches!(m.get("status").map(|s| s.as_str()), Some("pending") | Some("recurring"))).map(|(u, _)| *u).collect();
+    let mut in_ws: Vec<uuid::Uuid> = o.ws.iter().skip(1).flatten().copied().collect();
+    pend.sort();
+    in_ws.sort();
+    if o.ws.first().is_some_and(|x| x.is_some()) || pend != in_ws {
+        return Err(format!(
+            "working-set-stale: after the interrupted sync was repeated the working set lists {:?} but the pending tasks are {:?}",
+            in_ws.iter().map(|u| crate::world::replicas::tname(*u)).collect::<Vec<_>>(),
+            pend.iter().map(|u| crate::world::replicas::tname(*u)).collect::<Vec<_>>()
+        ));
+    }
+    Ok(())
+}
+
+/// "Synchronizing again reaches the same converged result as an uninterrupted sync" - the result
+/// of a sync includes the working set it rebuilds (its own storage transaction after the one
+/// that applies the versions). Replica 0 holds a pending task of its own and an older shared
+/// pending task; the server has a version that adds two pending tasks and completes the shared
+/// one. Its sync is interrupted at every storage call and server request (every fault kind), then
+/// simply repeated; the outcome is compared with that of the uninterrupted sync.
+fn working_set_family(rep: &Report) {
+    use taskchampion::Operation;
+    let tid = crate::world::replicas::tid;
+    for sqlite in [false, true] {
+        let mut w = World::new(2);
+        // shared history: T1 pending, known to both
+        commit_to(&mut w, 1, vec![Operation::Create { uuid: tid(1) }, ws_op(1, "status", "pending", None)]);
+        do_sync(&mut w, 1, Urg::None, false, None, None).result.expect("setup sync");
+        do_sync(&mut w, 0, Urg::None, false, None, None).result.expect("setup sync");
+        // replica 1: two new pending tasks, one completed one, completes T1; pushed
+        commit_to(
+            &mut w,
+            1,
+            vec![
+                Operation::Create { uuid: tid(2) },
+                ws_op(2, "status", "pending", None),
+                Operation::Create { uuid: tid(3) },
+                ws_op(3, "status", "recurring", None),
+                Operation::Create { uuid: tid(5) },
+                ws_op(5, "status", "completed", None),
+                ws_op(1, "status", "completed", Some("pending")),
+            ],
+        );
+        do_sync(&mut w, 1, Urg::None, false, None, None).result.expect("setup sync");
+        // replica 0: a pending task of its own, not yet pushed
+        commit_to(&mut w, 0, vec![Operation::Create { uuid: tid(4) }, ws_op(4, "status", "pending", None)]);
+        // the uninterrupted sync (and a second, idle one)
+        let mut r = w.clone();
+        do_sync(&mut r, 0, Urg::None, false, None, None).result.expect("reference sync");
+        do_sync(&mut r, 0, Urg::None, false, None, None).result.expect("reference sync");
+        let want = r.obs[0].clone();
+        if let Err(e) = ws_complete(&want) {
+            rep.violation(Violation::new("working-set-stale:uninterrupted", format!("{e} [no fault]"), json!({"kind": "c04-working-set", "sqlite": sqlite, "fault": null})));
+            continue;
+        }
+        let (sc, vc) = record(&w, 0);
+        for f in faults_for(sc.len(), vc.len()) {
+            let mut w2 = w.clone();
+            let res: Result<(), String> = (|| {
+                faulted_sync(&mut w2, 0, f, sqlite)?;
+                replica_invariant(&w2.chain, &w2.obs[0], 0).map_err(|e| format!("{e} [right after the fault]"))?;
+                // simply repeat the sync (twice: the second has nothing to exchange)
+                for _ in 0..2 {
+                    do_sync(&mut w2, 0, Urg::None, false, None, None).result.map_err(|e| format!("resync-failed: {e}"))?;
+                }
+                let got = &w2.obs[0];
+                if got.tasks != want.tasks {
+                    return Err(format!("different-result: the repeated sync ends with {} but the uninterrupted one with {}", tasks_str(&got.tasks), tasks_str(&want.tasks)));
+                }
+                ws_complete(got)?;
+                // numbers in use before the sync are kept (rebuild without renumbering)
+                for (i, e) in w.obs[0].ws.iter().enumerate() {
+                    if let Some(u) = e {
+                        if got.tasks.get(u).is_some_and(|m| m.get("status").map(|s| s.as_str()) == Some("pending")) && got.ws.get(i) != Some(&Some(*u)) {
+                            return Err(format!("working-set-renumbered: {} had number {i} before the interrupted sync and lost it", crate::world::replicas::tname(*u)));
+                        }
+                    }
+                }
+                Ok(())
+            })();
+            rep.add("evaluations", 1);
+            rep.add("working_set_fault_runs", 1);
+            if let Err(e) = res {
+                let class = e.split(':').next().unwrap_or("").to_string();
+                rep.violation(Violation::new(
+                    format!("{class}:working-set:{}", if sqlite { "sqlite" } else { "memory" }),
+                    format!("{e} [sync of a replica that pulls two pending tasks and a completion, fault {f:?}, storage calls {sc:?}]"),
+                    json!({"kind": "c04-working-set", "sqlite": sqlite, "fault": f}),
+                ));
+            }
+        }
+        println!("[C04] working set after an interrupted and repeated sync ({}): {} storage calls, {} server requests ({:.1}s)", if sqlite { "sqlite" } else { "memory" }, sc.len(), vc.len(), rep.elapsed());
+    }
+}
+
 pub fn run(opts: &Opts) -> i32 {
     let rep = Report::new("C04", "fault_enumeration", opts);
     rep.set("exhaustive", true);
     rep.set("rule", "start states = every distinct state of the C01 space (2 and 3 replicas, also with a 1 MB operation that makes the sync send several versions) up to a depth in which some replica has something to sync; for every such replica ONE sync with a fault at every StorageTxn call index x {error, process stop = future dropped and storage re-read} and at every Server request x {error before effect, effect then lost reply, stop before, stop after effect}; on the in-memory storage and, for a subset, on a real SqliteStorage that is closed and re-opened after the fault; oracle: replica invariant right after the fault for every replica, then quiescence succeeds and the converged tasks equal those of a fault-free run (any first-sync order); distinct_nontrivial = runs in which the server accepted a version although the sync did not complete");
     let q = opts.tier == Tier::Quick;
     let three = vec![("p".to_string(), Some("a".to_string()), 1), ("p".to_string(), Some("b".to_string()), 2), ("q".to_string(), Some("a".to_string()), 1)];
+    working_set_family(&rep);
     run_space(&rep, "R2-small", start_states(2, if q { 5 } else { 6 }, small_updates(), 0, false), false);
     run_space(&rep, "R2-populated", start_states(2, if q { 4 } else { 5 }, three.clone(), 0, true), false);
     run_space(&rep, "R2-big", start_states(2, if q { 4 } else { 5 }, vec![("p".into(), Some("a".into()), 1), ("p".into(), Some("b".into()), 2)], 1, false), false);
